@@ -20,6 +20,7 @@ contract(U + "BlockBase.match",
                enable_do_label_construct_hook="bool", enable_if_construct_hook="bool",
                enable_where_construct_hook="bool", strict_order="bool", strict_match_names="bool"),
     returns="tuple[list[ref:Base]]?",
+    not_assumed=["tables.nomatch.nothing_lost"],
     bind={"SYMBOL_TABLES": "ref:SymbolTables", "di.C99Preprocessor.match_cpp_directive": "cls"},
     locals=dict(content="list[ref:Base]", classes="list[cls]", comments="list[cls]"),
     requires={
@@ -41,6 +42,7 @@ contract(U + "BlockBase.match",
     },
     ensures={
         "scope.ret": "scope_stack == old(scope_stack)",
+        "rep": "REP(SYMBOL_TABLES)",
         "restore": "implies(result is None, view == old(view))",
         "order": "implies(result is not None, old(view) == cons(result[0]) + view)",
         "tables.nomatch.nothing_left": "implies(result is None, dict_subset(SYMBOL_TABLES._symbol_tables, old(SYMBOL_TABLES._symbol_tables)))",
@@ -48,6 +50,7 @@ contract(U + "BlockBase.match",
     },
     raises={"*": {
         "scope.exc": "scope_stack == old(scope_stack)",
+        "rep": "REP(SYMBOL_TABLES)",
         "tables.exc.nothing_left": "dict_subset(SYMBOL_TABLES._symbol_tables, old(SYMBOL_TABLES._symbol_tables))",
     }},
     loops={
@@ -69,4 +72,56 @@ contract(U + "BlockBase.match",
         3: dict(invariant=restore_inv("_k3"), types={"obj": "ref:Base?"}),
     },
     serves=["C08", "C09", "C11", "C12", "C16", "C20"],
+)
+
+
+F = "fparser.two.Fortran2003:"
+
+contract(F + "Main_Program0.match",
+    str_axioms=["case_idempotent"],
+    types=dict(reader="FortranReaderBase"),
+    returns="tuple[list[ref:Base]]?",
+    not_assumed=["tables.nomatch.nothing_lost"],
+    bind={"SYMBOL_TABLES": "ref:SymbolTables"},
+    requires={"rep": "REP(SYMBOL_TABLES)"},
+    modifies=["view", "scope_stack", "*.fifo_item", "*.linecount", "*.filo_line", "*.source_lines", "*.isclosed",
+              "*._children", "SYMBOL_TABLES._symbol_tables", "SYMBOL_TABLES._current_scope",
+              "*._name", "*._data_symbols", "*._modules", "*._parent", "*._node", "*._checking_enabled", "*.message"],
+    ensures={
+        "scope.ret": "scope_stack == old(scope_stack)",
+        "rep": "REP(SYMBOL_TABLES)",
+        "restore": "implies(result is None, view == old(view))",
+        "tables.nomatch.nothing_left": "implies(result is None, dict_subset(SYMBOL_TABLES._symbol_tables, old(SYMBOL_TABLES._symbol_tables)))",
+        "tables.nomatch.nothing_lost": "implies(result is None, dict_subset(old(SYMBOL_TABLES._symbol_tables), SYMBOL_TABLES._symbol_tables))",
+    },
+    raises={"*": {
+        "scope.exc": "scope_stack == old(scope_stack)",
+        "tables.exc.nothing_left": "dict_subset(SYMBOL_TABLES._symbol_tables, old(SYMBOL_TABLES._symbol_tables))",
+    }},
+    serves=["C09", "C16"],
+)
+
+
+contract(F + "Program.match",
+    types=dict(reader="FortranReaderBase"),
+    returns="tuple[list[ref:Base]]?",
+    bind={"SYMBOL_TABLES": "ref:SymbolTables"},
+    locals=dict(content="list[ref:Base]"),
+    requires={"rep": "REP(SYMBOL_TABLES)"},
+    modifies=["view", "scope_stack", "*.fifo_item", "*.linecount", "*.filo_line", "*.source_lines", "*.isclosed",
+              "*._children", "SYMBOL_TABLES._symbol_tables", "SYMBOL_TABLES._current_scope",
+              "*._name", "*._data_symbols", "*._modules", "*._parent", "*._node", "*._checking_enabled", "*.message"],
+    calls={"add_comments_includes_directives": "proto:add_comments", "Program_Unit": "proto:rule_call",
+           "reader.next": "proto:reader_next", "reader.put_item": "proto:put_item"},
+    ensures={
+        # C02/C08: a tree is returned only when every item of the input is accounted for by a node of the tree
+        "covers_all_items": "implies(result is not None, old(view) == cons(result[0]) + view)",
+        "input_exhausted": "implies(result is not None, view == [])",
+        "scope.ret": "scope_stack == old(scope_stack)",
+    },
+    raises={"*": {"scope.exc": "scope_stack == old(scope_stack)"}},
+    loops={0: dict(invariant={"accounted": "old(view) == cons(content) + view",
+                              "scope": "scope_stack == old(scope_stack) and REP(SYMBOL_TABLES)"},
+                   types={"obj": "ref:Base?", "next_line": "ref"})},
+    serves=["C02", "C08"],
 )
